@@ -142,6 +142,28 @@ def run(res, replay=None):
             if list(A[0]) != iloc_replica(ms, g):
                 res.violation("C05:grid-point-of-generator", f"cell {e['cell']}: the exact predicate was given grid point {A[0]} for the generator, iloc gives {iloc_replica(ms, g)}", ctx)
                 break
+            # the other four arguments are the grid points of the generators behind the planes themselves (their stored positions plus the
+            # periodic shift), not of anything recomputed from the planes: all cells must hand the predicate the same integer image of a generator
+            def expected(right, shift_bits):
+                h = ms["gens"][right]
+                if shift_bits is None:
+                    return iloc_replica(ms, h)
+                sh = T.dv(shift_bits)
+                return iloc_replica(ms, [h[k] + sh[k] for k in range(3)])
+            wrong = None
+            ic = (o.get("icells") or [None] * (e["cell"] + 1))[e["cell"]]
+            if ic is not None:
+                for t in range(3):
+                    pl = ic["planes"][e["dual"][t]] if e["dual"][t] < len(ic["planes"]) else None
+                    if pl is not None and pl["right"] is not None and list(A[1 + t]) != expected(pl["right"], pl["shift"]):
+                        wrong = (1 + t, pl["right"], expected(pl["right"], pl["shift"]))
+                        break
+            if wrong is None and e.get("right", -1) is not None and e.get("right", -1) >= 0 and list(A[4]) != expected(e["right"], e.get("shift")):
+                wrong = (4, e["right"], expected(e["right"], e.get("shift")))
+            if wrong is not None:
+                res.violation("C05:grid-point-of-neighbour", f"cell {e['cell']}: argument #{wrong[0]} of the exact predicate is {A[wrong[0]]}, but generator {wrong[1]} (plus shift) "
+                              f"has grid point {wrong[2]}: the predicate was not evaluated on the generators' own grid points", dict(ctx, points=A))
+                break
             if any(not (0 <= x < (1 << 52)) for p in A for x in p):
                 res.violation("C05:grid-point-out-of-range", f"cell {e['cell']}: exact predicate argument outside [0, 2^52): {A}", ctx)
                 break
